@@ -923,6 +923,15 @@ fn render_stmt(st: &Stmt) -> Option<String> {
             post
         ),
         "T" => format!("typeset {pre} {post}"),
+        // wave 3: temporary assignments before the (regular) built-in typeset: `x=T typeset -g x`
+        "TP" => {
+            let (a, o): (Vec<&String>, Vec<&String>) = st.pre.iter().partition(|t| t.contains('='));
+            format!(
+                "{} typeset {} {post}",
+                a.iter().map(|t| render_assign(t)).collect::<Vec<_>>().join(" "),
+                o.iter().map(|t| t.as_str()).collect::<Vec<_>>().join(" ")
+            )
+        }
         "D" => match st.pre.first()?.as_str() {
             "t" => format!("typeset -p {} {post}", st.pre[1..].join(" ")),
             "e" => format!("export -p {post}"),
@@ -1138,6 +1147,21 @@ impl NaiveScript<'_> {
                     }
                     self.n.apply(&Op::Pop);
                     false
+                }
+                "TP" => {
+                    let (temps, opts): (Vec<String>, Vec<String>) =
+                        st.pre.iter().cloned().partition(|t| t.contains('='));
+                    self.n.apply(&Op::PushV);
+                    if self.run_assigns(&temps, Scope::Volatile, true) {
+                        true
+                    } else {
+                        let sc = if opts.iter().any(|o| o == "-g") { Scope::Global } else { Scope::Local };
+                        for t in &st.post {
+                            self.typeset_field(sc, &opts, t);
+                        }
+                        self.n.apply(&Op::Pop);
+                        false
+                    }
                 }
                 "D" => {
                     let Some(b) = st.pre.first() else {
@@ -1399,7 +1423,17 @@ fn random_script(r: &mut Rng) -> String {
                 15 => {
                     if r.chance(1, 3) { format!("R {}", operands(r)) } else { continue }
                 }
-                20 | 21 | 22 => format!("T {} -- {}", topts(r), operands(r)),
+                20 | 21 => format!("T {} -- {}", topts(r), operands(r)),
+                22 => {
+                    // wave 3: the same with temporary assignments in front (half of them naming an operand)
+                    let o = operands(r);
+                    let t = if r.chance(1, 2) {
+                        format!("{}={} {}", split_assign(o.split(' ').next().unwrap_or("x")).0, r.pick(&avals), temps(r))
+                    } else {
+                        temps(r)
+                    };
+                    format!("TP {} {} -- {}", t, topts(r), o)
+                }
                 23 | 24 => format!("D t {} -- {}", topts(r).replace("-r", "+x"), names(r)),
                 25 => format!("D e -- {}", names(r)),
                 26 => format!("D r -- {}", names(r)),
